@@ -234,6 +234,13 @@ def xentries? (s : String) : Option (List XEntry) :=
 /-- `extract <overwrite> <cwd hex> <outdir hex> <fs> <entries>` -/
 def handleExtract (toks : List String) : String :=
   match toks with
+  | [ow, cwd, out, fs, es, dumpRoot] =>
+    -- extraction into the current directory (`out` may be empty); the post-state is dumped below `dumpRoot`
+    match ofHex cwd, ofHex out, fs? fs, xentries? es, ofHex dumpRoot with
+    | some cwd, some out, some fs, some es, some dr =>
+      let (fs', err) := extractAll (ow == "1") (Fs.comps cwd) out fs es
+      (match err with | none => "ok" | some _ => "err") ++ " " ++ fsDump fs' (Fs.comps dr)
+    | _, _, _, _, _ => "bad-op"
   | [ow, cwd, out, fs, es] =>
     match ofHex cwd, ofHex out, fs? fs, xentries? es with
     | some cwd, some out, some fs, some es =>
